@@ -194,18 +194,11 @@ func evalC11(c *engine.Case) engine.Verdict {
 			}
 			// C02 holds for run-once targets too: a call whose arguments
 			// cannot be derived is refused, whatever an earlier call memoized
-			// (a run-once CONVERTER that has already run supplies its memoized
-			// outputs without needing its inputs again: C11)
-			memo := *stepSc
-			memo.Convs = append([]engine.FuncSpec(nil), stepSc.Convs...)
-			for _, ev := range w.EventsSince(0) {
-				for i := range memo.Convs {
-					if memo.Convs[i].Once && memo.Convs[i].ID == ev.Func {
-						memo.Convs[i].In = nil
-					}
-				}
-			}
-			underivable := !engine.Analyze(&memo, engine.RPlus).Derivable
+			// (a run-once converter that has already run still needs its
+			// inputs: the library itself refuses the call when NONE of them is
+			// there; with only some of them missing it used to answer from the
+			// memo -- defect D43)
+			underivable := !engine.Analyze(stepSc, engine.RPlus).Derivable
 			if o.Err == nil && o.Panic == "" && underivable {
 				v.Failf("step %d: the call succeeded although a parameter of the target cannot be derived from what this call was given (the target's own memoized result?)", si)
 				return v
